@@ -273,6 +273,29 @@ theorem release_reports_like_dealloc (c : Current) (f : Family) (s : State) (inv
 theorem release_wrappers_poison_first :
     ∀ w ∈ Gen.LeakDetector.releaseWrappers, w.invalidateThenDealloc = true := by decide
 
+/-- Every release wrapper of the source, plain AND thread-safe, executed as regenerated (its own statement order,
+    current allocator, location arguments, layout flag) is the modelled `release` of its family — so everything proved
+    about `release` (`poisoned_before_release`, `release_reports_like_dealloc`) holds for all six wrappers. -/
+theorem release_wrappers_are_release :
+    ∀ w ∈ Gen.LeakDetector.releaseWrappers, ∀ (c : Current) (s : State) (addr : Nat) (file : String) (line : Nat),
+      releaseBy w c s addr file line = release c (familyOfGetter w.getter) s addr file line := by
+  intro w hw c s addr file line
+  simp only [Gen.LeakDetector.releaseWrappers, List.mem_cons, List.mem_nil_iff, or_false] at hw
+  rcases hw with rfl | rfl | rfl | rfl | rfl | rfl <;> rfl
+
+/-- both variants of every family are in the table: `free`, `delete`, `delete[]`, each plain and thread-safe -/
+theorem release_wrappers_complete :
+    (Gen.LeakDetector.releaseWrappers.map (·.name)) =
+      ["threadsafe_mem_leak_free", "mem_leak_free", "threadsafe_mem_leak_operator_delete",
+       "threadsafe_mem_leak_operator_delete_array", "mem_leak_operator_delete", "mem_leak_operator_delete_array"] := by decide
+
+/-- hence: through every wrapper, plain or thread-safe, the block comes back with all user bytes poisoned -/
+theorem poisoned_before_release_all_wrappers (w : Gen.LeakDetector.ReleaseWrapper) (hw : w ∈ Gen.LeakDetector.releaseWrappers)
+    (c : Current) (s : State) (inv : s.Inv) (n : Node) (hn : n ∈ s.nodes) (file : String) (line : Nat) :
+    freedBytes (releaseBy w c s n.addr file line).2 = [(n.addr, List.replicate n.size Gen.LeakDetector.poisonByte)] := by
+  rw [release_wrappers_are_release w hw]
+  exact poisoned_before_release c _ s inv n hn file line
+
 /-- the constants the proofs rely on: three guard bytes `B A S`, poison `0xCD` -/
 theorem guard_constants :
     Gen.LeakDetector.guardSize = 3 ∧ guardPattern = [0x42, 0x41, 0x53] ∧ Gen.LeakDetector.poisonByte = 0xCD ∧
